@@ -19,8 +19,10 @@ Proof.
            end; inversion H; subst; auto; apply dcoerce_keeps.
   - repeat match type of H with (if ?c then _ else _) = _ => destruct c end; inversion H; subst; auto.
   - destruct (kind_dt k); [|inversion H; subst; auto].
+    destruct (Qcltb c 0); [inversion H; subst; auto|].
     destruct (negb (nonneg _)); inversion H; subst. apply dcoerce_keeps.
   - destruct (kind_dt k); [|inversion H; subst; auto].
+    destruct (Qcltb c 0); [inversion H; subst; auto|].
     destruct (negb (nonneg _)); inversion H; subst. apply dcoerce_keeps.
   - inversion H.
   - destruct (bins_apply_map _ _); inversion H; subst; auto.
@@ -64,9 +66,9 @@ Proof.
     apply nonneg_vadd; auto. destruct (dcoerce_keeps h (y_dt o)) as [A _]. rewrite A. exact Hf.
   - destruct Ho as [O1 [O2 O3]]. rewrite O3 in H. cbn [negb] in H.
     destruct (negb (nonneg _)) eqn:E; [inversion H|]. inversion H; subst. cbn [y_freq]. apply negb_false_iff in E. exact E.
-  - destruct (kind_dt k); [|inversion H]. destruct (negb (nonneg _)) eqn:E; [inversion H|]. inversion H; subst. cbn [y_freq].
+  - destruct (kind_dt k); [|inversion H]. destruct (Qcltb c 0); [inversion H|]. destruct (negb (nonneg _)) eqn:E; [inversion H|]. inversion H; subst. cbn [y_freq].
     apply negb_false_iff in E. exact E.
-  - destruct (kind_dt k); [|inversion H]. destruct (negb (nonneg _)) eqn:E; [inversion H|]. inversion H; subst. cbn [y_freq].
+  - destruct (kind_dt k); [|inversion H]. destruct (Qcltb c 0); [inversion H|]. destruct (negb (nonneg _)) eqn:E; [inversion H|]. inversion H; subst. cbn [y_freq].
     apply negb_false_iff in E. exact E.
 Qed.
 
